@@ -709,6 +709,9 @@ func doReplay(p *Prop, path string) int {
 		for _, l := range fmtEvents(run.Events) {
 			fmt.Println("   ", l)
 		}
+		if run.Post != nil {
+			fmt.Printf("final state: store=%v costs=%v pending-writes=%v clients=%s daemons=%d closed=%v\n", run.Post.Store, run.Post.Costs, run.Post.SetBufItems, run.Post.ClientState, run.Post.Daemons, run.Post.IsClosed)
+		}
 		var viols []Viol
 		switch run.Outcome {
 		case vsched.Done:
